@@ -185,15 +185,23 @@ def run(ck):
                 continue
             off, on, cu = a["results"]
             stats["statements"] += 1
-            if not on.get("bound"):
+            if not on.get("bound") and on["class"] != "timeout":
                 stats["bind_rejected"] += 1     # the binder rejected it (or a SET/PRAGMA): not an accepted statement
                 continue
             distinct.add(c["sql"])
             vb = judge(off["bound"], off, "bound", c, eng) if off.get("bound") else None
-            vo = judge(on["optimized"], on, "optimized", c, eng)
-            replay = {"case": c, "engine": eng, "config": extra, "bound": on["bound"], "optimized": on["optimized"], "verdict": vo, "outcome": on,
+            vo = judge(on["optimized"], on, "optimized", c, eng) if on.get("optimized") else "timeout"
+            replay = {"case": c, "engine": eng, "config": extra, "bound": on.get("bound"), "optimized": on.get("optimized"), "verdict": vo, "outcome": on,
                       "requests": [{"id": "replay", "engine": eng, "setup": c["setup"] + extra, "queries": [{"sql": c["sql"], "opt": "on", "plans": True}]}]}
             # ---- the property: an accepted statement gets an executable plan with the same arity
+            if on["class"] == "timeout":
+                # optimization did not terminate; counterfactual: it does without the `or-true` rule
+                one = c01.run_harness(ck, [{"id": "one", "engine": eng, "setup": c["setup"] + extra, "queries": [{"sql": c["sql"], "opt": "custom", "exclude": ["or-true"], "plans": True}]}], "term", stages).get("one")
+                if one and one["results"] and one["results"][0]["class"] == "ok":
+                    ck.report("plan:optimizer-does-not-terminate:or-true-in-folded-conjunction", "optimizing `%s` does not come back within %d s; it does without rule or-true" % (c["sql"], c01.REQUEST_TIMEOUT_S), replay=replay)
+                else:
+                    ck.report("plan:optimizer-does-not-terminate:" + vlib.slug(c["sql"])[:60], "optimizing `%s` does not come back within %d s" % (c["sql"], c01.REQUEST_TIMEOUT_S), replay=replay)
+                continue
             if vo == "ok" and on["class"] == "ok":
                 stats["optimized_ok"] += 1
                 nb, no = plans[on["bound"]][1], plans[on["optimized"]][1]
